@@ -22,6 +22,7 @@ import (
 	"errors"
 	"fmt"
 	"io"
+	"math"
 	"net"
 	"os"
 	"sort"
@@ -46,6 +47,9 @@ func init() {
 }
 
 var rlDebug = os.Getenv("VERIF_DEBUG") != ""
+
+// "none": the effectively infinite idle timeout of repo commit 637b35e
+const rlNoIdleTimeout = time.Duration(math.MaxInt64 / 4)
 
 // watchdog: a scenario that does not finish within 60 s of WALL clock is a livelock (a run loop
 // spinning at one virtual instant never lets the bubble's clock advance). The bubble cannot be
@@ -226,6 +230,11 @@ func genRLCase(r *u.Rng) rlCase {
 	c.SrvIdle = genDur(r, time.Second, 30*time.Second)
 	if r.Chance(1, 4) {
 		c.SrvIdle = c.CliIdle
+	}
+	if r.Chance(1, 10) {
+		// no idle timeout of its own (what configCoveringSpec gives a spec-driven client whose transport parameters
+		// advertise no max_idle_timeout): only the peer's value counts
+		c.CliIdle = rlNoIdleTimeout
 	}
 	ka := func(idle time.Duration) time.Duration {
 		switch r.Intn(6) {
@@ -1128,6 +1137,9 @@ func runOneClose(c rlCloseCase, o *rlOut) {
 					want = ekTransport
 				}
 				codeMatters := want == ekApp || want == ekAppRemote || want == ekTransportRemote || (want == ekTransport && q.Kind != quic.VerifErrOther)
+				if q.Kind == quic.VerifErrOther && !q.Immediate && cc != uint64(quic.InternalError) {
+					continue // (a non-QUIC error of a non-immediate close is recorded as INTERNAL_ERROR)
+				}
 				if ck == want && (!codeMatters || cc == q.Code) && recImm == q.Immediate {
 					w = i
 					break
